@@ -250,7 +250,20 @@ func Float(f float64) *Term {
 
 func Param(i int) *Term { return &Term{Op: OParam, N: i} }
 
-func Field(base *Term, f *types.Var) *Term { return &Term{Op: OField, Obj: f, Args: []*Term{base}} }
+func Field(base *Term, f *types.Var) *Term {
+	// the field of a row of a read-only literal, reached through a pointer to the row (r := &rows[i]; r.name):
+	// the value written there
+	if base.Op == OAddr && len(base.Args) == 1 && base.Args[0].Op == "struct" && base.Args[0].Typ != nil {
+		if st, ok := base.Args[0].Typ.Underlying().(*types.Struct); ok && st.NumFields() == len(base.Args[0].Args) {
+			for i := 0; i < st.NumFields(); i++ {
+				if st.Field(i) == f || st.Field(i).Origin() == f.Origin() {
+					return base.Args[0].Args[i]
+				}
+			}
+		}
+	}
+	return &Term{Op: OField, Obj: f, Args: []*Term{base}}
+}
 
 // AccessorPath, when set, gives for a verified accessor method (x.BaseMetrics() returns x's embedded base
 // object, nil for a nil x) the chain of embedded fields it stands for; a call of it on a non-nil object is that
